@@ -14,7 +14,7 @@ use erbium::dhcp::pool;
 use std::io::Write;
 use util::*;
 
-const CONFIGS: [&str; 4] = [
+const CONFIGS: [&str; 6] = [
     // 0: a small pool on 192.0.2.0/24
     "
 dhcp-policies:
@@ -38,6 +38,20 @@ dhcp-policies:
     // 3: top-level addresses only (default pool = the whole prefix)
     "
 addresses: [198.51.100.1/29]
+",
+    // 4, 5: the small pool under a policy that itself says something about option 54 (another server's
+    // address / null): replies must still name THIS server
+    "
+dhcp-policies:
+  - match-subnet: 192.0.2.0/24
+    apply-range: {start: 192.0.2.10, end: 192.0.2.13}
+    apply-server-id: 192.0.2.3
+",
+    "
+dhcp-policies:
+  - match-subnet: 192.0.2.0/24
+    apply-range: {start: 192.0.2.10, end: 192.0.2.13}
+    apply-server-id: null
 ",
 ];
 
@@ -131,7 +145,7 @@ fn run_case(c: &Case, confs: &[erbium::config::SharedConfig]) -> Toks {
 }
 
 fn gen_case(r: &mut Rng, stats: &mut Stats) -> Case {
-    let cfg = r.below(4) as usize;
+    let cfg = r.below(6) as usize;
     let serverip: u32 = match (cfg, r.below(8)) {
         (_, 0) => 0x0A00_0001,             // outside every policy
         (3, _) => 0xC633_6401,             // 198.51.100.1
@@ -206,6 +220,11 @@ fn gen_case(r: &mut Rng, stats: &mut Stats) -> Case {
         m.ciaddr = 0.into();
     }
     if r.chance(1, 3) {
+        // the client asks for the server identifier (and a few others) in its parameter list
+        stats.bump("prl.asks-for-54");
+        m.options.other.insert(hk::mk_option(55), vec![1, 3, 54, 51, 6]);
+    }
+    if r.chance(1, 3) {
         m.chaddr = vec![2, 0, 0, 0, 0, 1];
         m.hlen = 6;
     }
@@ -224,6 +243,14 @@ fn gen_case(r: &mut Rng, stats: &mut Stats) -> Case {
     if r.chance(1, 4) {
         // the client itself already holds something
         prefill.push((m.get_client_id(), 0xC000_020A_u32 + r.below(4) as u32));
+    }
+    if r.chance(1, 3) {
+        // ... and a lease on another subnet of the same server (one client id, two pools): not this exchange's row
+        stats.bump("prefill.same-client-other-subnet");
+        prefill.push((m.get_client_id(), 0xC633_6414_u32 + r.below(3) as u32));
+        if r.chance(1, 2) {
+            prefill.push((m.get_client_id(), 0xCB00_7105_u32));
+        }
     }
     // half of them expired, half current -- or all current (pool exhausted for everybody else)
     let all_current = r.chance(1, 3);
